@@ -251,7 +251,11 @@ def run_property(pid, tier, seed, update_lock=False, only=None, verbose=False):
                 violations.append((name, path, confirmed["text"], False))
                 e["verdict"] = "violated"
         else:
-            if solver_says_sat and name in lock:
+            # an obligation that only exists on new paths (e.g. an exception the unchanged tree never raised)
+            # counts as locked when the other obligations of the same contract are locked
+            cshort = name.split("#", 1)[0]
+            implicitly_locked = name not in lock and any(l.startswith(cshort + "#") for l in lock)
+            if solver_says_sat and (name in lock or implicitly_locked):
                 os.makedirs(replay_dir, exist_ok=True)
                 path = os.path.join(replay_dir, _safe(name) + ".json")
                 json.dump(
